@@ -191,6 +191,11 @@ func c07(raw json.RawMessage, resp *drv.Response) error {
 			{[]interface{}{"muladdnr", 1.0, 2.0, 3.0}, []interface{}{"add", 1.0, 4.0, 1.0}, []interface{}{"sub", 4.0, 2.0, 1.0}, []interface{}{"muladd", 1.0, 2.0, 4.0}, []interface{}{"add", 3.0, 4.0, 1.0}},
 			{[]interface{}{"mulnr", 1.0, 2.0, 1.0}, []interface{}{"muladd", 3.0, 2.0, 4.0}, []interface{}{"muladd", 1.0, 1.0, 4.0}, []interface{}{"reduce", 4.0, 1.0, 1.0}},
 			{[]interface{}{"addnr", 1.0, 2.0, 1.0}, []interface{}{"muladdnr", 4.0, 3.0, 4.0}, []interface{}{"sub", 5.0, 4.0, 1.0}, []interface{}{"mul", 4.0, 5.0, 1.0}},
+			// a sum used as addend of a multiply-add whose multiplier is register 3 (a compile-time constant in the second pass) and whose
+			// multiplicand already occurs in the sum - and read again afterwards
+			{[]interface{}{"addnr", 1.0, 2.0, 1.0}, []interface{}{"muladdnr", 1.0, 3.0, 4.0}, []interface{}{"reduce", 4.0, 1.0, 1.0}, []interface{}{"muladdnr", 2.0, 3.0, 4.0}, []interface{}{"add", 4.0, 1.0, 1.0}},
+			{[]interface{}{"addnr", 1.0, 2.0, 1.0}, []interface{}{"muladd", 1.0, 3.0, 4.0}, []interface{}{"reduce", 4.0, 1.0, 1.0}, []interface{}{"muladd", 3.0, 2.0, 4.0}, []interface{}{"add", 4.0, 2.0, 1.0}},
+			{[]interface{}{"muladdnr", 1.0, 3.0, 1.0}, []interface{}{"add", 1.0, 2.0, 1.0}, []interface{}{"muladdnr", 3.0, 1.0, 1.0}, []interface{}{"mul", 1.0, 2.0, 1.0}},
 		}
 		progs := append(fixed, req.Programs...)
 		for pi, prog := range progs {
@@ -220,34 +225,40 @@ func c07(raw json.RawMessage, resp *drv.Response) error {
 			if skip {
 				continue
 			}
-			body := func(api frontend.API, iv []frontend.Variable) []frontend.Variable {
-				chip := gl.New(api)
-				vars := []gl.Variable{gl.NewVariable(iv[0]), gl.NewVariable(iv[1]), gl.NewVariable(iv[2])}
-				var outs []frontend.Variable
-				for _, st := range prog {
-					s := st.([]interface{})
-					op := s[0].(string)
-					i, j, k := int(s[1].(float64))-1, int(s[2].(float64))-1, int(s[3].(float64))-1
-					o, _ := applyOp(chip, op, vars[i], vars[j], vars[k])
-					vars = append(vars, o)
-				}
-				for si, st := range prog { // read (and, for the unreduced variants, reduce) only after the whole program has run
-					op := st.([]interface{})[0].(string)
-					v := vars[3+si]
-					if !reducingOps[op] {
-						v = chip.Reduce(v)
+			for _, constReg3 := range []bool{false, true} {
+				constReg3 := constReg3
+				body := func(api frontend.API, iv []frontend.Variable) []frontend.Variable {
+					chip := gl.New(api)
+					vars := []gl.Variable{gl.NewVariable(iv[0]), gl.NewVariable(iv[1]), gl.NewVariable(iv[2])}
+					if constReg3 {
+						vars[2] = gl.NewVariable(new(big.Int).Set(in[2])) // register 3 is a compile-time constant of the circuit
 					}
-					outs = append(outs, v.Limb)
+					var outs []frontend.Variable
+					for _, st := range prog {
+						s := st.([]interface{})
+						op := s[0].(string)
+						i, j, k := int(s[1].(float64))-1, int(s[2].(float64))-1, int(s[3].(float64))-1
+						o, _ := applyOp(chip, op, vars[i], vars[j], vars[k])
+						vars = append(vars, o)
+					}
+					for si, st := range prog { // read (and, for the unreduced variants, reduce) only after the whole program has run
+						op := st.([]interface{})[0].(string)
+						v := vars[3+si]
+						if !reducingOps[op] {
+							v = chip.Reduce(v)
+						}
+						outs = append(outs, v.Limb)
+					}
+					return outs
 				}
-				return outs
-			}
-			for _, sys := range []string{"r1cs", "scs"} {
-				stage, err := solveOnBuilder(sys, in[:], ref[3:], body)
-				b, _ := json.Marshal(prog)
-				resp.Count(fmt.Sprintf("real/%s/%s/%v", sys, b, in), false)
-				if err != nil {
-					resp.Violate(fmt.Sprintf("c07/program-real/%s sys=%s", stage, sys),
-						fmt.Sprintf("program %s on %v compiled with the real %s builder: the field's results are not accepted (%s: %s)", b, in, sys, stage, firstLine(err)), map[string]any{"prog": prog, "sys": sys})
+				for _, sys := range []string{"r1cs", "scs"} {
+					stage, err := solveOnBuilder(sys, in[:], ref[3:], body)
+					b, _ := json.Marshal(prog)
+					resp.Count(fmt.Sprintf("real/%s/%v/%s/%v", sys, constReg3, b, in), false)
+					if err != nil {
+						resp.Violate(fmt.Sprintf("c07/program-real/%s sys=%s", stage, sys),
+							fmt.Sprintf("program %s on %v (register 3 a compile-time constant: %v) compiled with the real %s builder: the field's results are not accepted (%s: %s)", b, in, constReg3, sys, stage, firstLine(err)), map[string]any{"prog": prog, "sys": sys})
+					}
 				}
 			}
 		}
